@@ -88,7 +88,7 @@ pub fn gen_c15(base_seed: u64, batch: &str, run: u64, rng: &mut Rng) -> Scenario
                 ClauseSpec {
                     m: *p,
                     form: if rng.chance(1, 2) { Form::EachCall } else { Form::Stub },
-                    patterns: vec![PatternSpec { pred: 0xf, has_matcher: true, segs: vec![Seg { resp: Resp::DefaultImpl, quant }] }],
+                    patterns: vec![PatternSpec { pred: 0xf, has_matcher: true, macro_form: false, segs: vec![Seg { resp: Resp::DefaultImpl, quant }] }],
                 },
             );
         }
@@ -408,7 +408,7 @@ fn gen_c16_async(base_seed: u64, batch: &str, run: u64, rng: &mut Rng) -> Scenar
     let wild = |m: M, resp: Resp, quant: Quant| ClauseSpec {
         m,
         form: Form::EachCall,
-        patterns: vec![PatternSpec { pred: 0xf, has_matcher: true, segs: vec![Seg { resp, quant }] }],
+        patterns: vec![PatternSpec { pred: 0xf, has_matcher: true, macro_form: false, segs: vec![Seg { resp, quant }] }],
     };
     let partial = rng.chance(1, 2);
     // af: explicit applies_unmocked(), or left to the partial fall-through
@@ -991,7 +991,22 @@ pub fn check_c18(scn: &Scenario) -> Checked {
             out = out.replace(&format!("Real({d1})"), "\u{4}").replace(&format!("Real({d2})"), &format!("Real({d1})")).replace('\u{4}', &format!("Real({d2})"));
             out
         };
-        ob.calls = ob.calls.iter().map(|c| swap_text(c)).collect();
+        ob.calls = ob
+            .calls
+            .iter()
+            .map(|c| {
+                let t = swap_text(c);
+                // multi-line panic texts are kept with sorted lines: sort again after renaming
+                match t.split_once(" -> mock panic: ") {
+                    Some((head, msg)) => {
+                        let mut lines: Vec<&str> = msg.split('\n').collect();
+                        lines.sort();
+                        format!("{head} -> mock panic: {}", lines.join("\n"))
+                    }
+                    None => t,
+                }
+            })
+            .collect();
         ob.verdict = ob.verdict.map(|v| match v.strip_prefix("fail: ") {
             Some(rest) => {
                 let t = swap_text(rest);
